@@ -72,6 +72,13 @@ def corruption_sites(pf, path, rng, limit, full):
                     if pos + 8 <= size:
                         out.append((f"remove 8 bytes {nm} of fab {fi} in {rel}",
                                     [("remove", dict(file=rel, pos=pos, n=8))], False))
+            # a FAB that is not the last of its file loses its last value (the following FABs move up by 8 bytes: their
+            # recorded offsets then point 8 bytes inside their own header line)
+            if len(scan) >= 2:
+                for fi in ([0, len(scan) - 2] if full else [len(scan) - 2]):
+                    lo, hi, nc, hoff, doff, nbytes = scan[fi]
+                    out.append((f"remove the last value of fab {fi} (not the last one) in {rel}",
+                                [("remove", dict(file=rel, pos=doff + nbytes - 8, n=8))], False))
         # level-header edits
         cellh = open(os.path.join(path, f"Level_{lv}", "Cell_H")).read().split("\n")
         nb = lvi["nboxes"]
@@ -259,6 +266,32 @@ def benign_edits(pf, path, rng):
     return out
 
 
+def _scan_by_text(fpath):
+    """[(lo, hi, nc, header offset, data offset, number of bytes up to the next header or the end of the file)] from the FAB
+    header texts found in the file"""
+    import re
+    blob = open(fpath, "rb").read()
+    out = []
+    starts = [m.start() for m in re.finditer(rb"FAB \(\(", blob)]
+    for k, st in enumerate(starts):
+        eol = blob.find(b"\n", st)
+        if eol < 0:
+            continue
+        line = blob[st:eol].decode("ascii", "replace")
+        m = re.search(r"\(\(([-\d,]+)\) \(([-\d,]+)\) \([-\d,]+\)\) (\d+)\s*$", line)
+        if not m:
+            continue
+        try:
+            lo = [int(x) for x in m.group(1).split(",")]
+            hi = [int(x) for x in m.group(2).split(",")]
+            nc = int(m.group(3))
+        except ValueError:
+            continue
+        end = starts[k + 1] if k + 1 < len(starts) else len(blob)
+        out.append((lo, hi, nc, st, eol + 1, end - (eol + 1)))
+    return out
+
+
 def read_everything(path, limit, fails, desc):
     """the reader reads every box of every validated level, with the level-header shape for all fields, and returns
     the values of the FAB in that file whose header names the box's index range."""
@@ -289,11 +322,19 @@ def read_everything(path, limit, fails, desc):
                         scans[fpath] = None
                 sc = scans[fpath]
                 if sc is None:
-                    continue
+                    # the file is not a clean concatenation of FABs: locate the FAB headers by their text; the values of a
+                    # FAB are the bytes between the end of its header line and the next header (or the end of the file)
+                    sc = _scan_by_text(fpath)
+                    scans[fpath] = sc
                 hits = [s for s in sc if tuple(s[0]) == tuple(int(x) for x in lo) and tuple(s[1]) == tuple(int(x) for x in hi)]
                 if len(hits) != 1:
                     continue
                 _, _, nc, hoff, doff, nbytes = hits[0]
+                if nbytes != int(np.prod(shape)) * 8:
+                    fails.append({"what": "accepted by taste but the FAB naming a box's index range does not hold the values of a box "
+                                          "of that shape", "call": desc,
+                                  "detail": f"level {lv} box {b}: {nbytes} bytes stored for shape {shape}"})
+                    return
                 with open(fpath, "rb") as f:
                     f.seek(doff)
                     raw = np.frombuffer(f.read(nbytes), dtype="<f8")
